@@ -253,7 +253,7 @@ def run(rng, res, tier, shard, nshards):
     reach = Reach()
     for fn in ('is_node_traversable_by_attacker', 'get_attack_surface', 'update_attack_surface_add_nodes',
                'get_defense_surface', 'get_enabled_defenses'):
-        reach.add('query.' + fn, getattr(query, fn))
+        reach.add('query.' + fn, getattr(query, fn, None))
     reach.add('AttackGraphNode.is_available_defense', AttackGraphNode.is_available_defense)
     reach.add('AttackGraphNode.is_enabled_defense', AttackGraphNode.is_enabled_defense)
     reach.start()
